@@ -68,6 +68,20 @@ CHECKS["C10"] = (SEM, "every program with a shared literal SET in two/three stat
                  "through optimize(duplication only); all instances, all answer sets, multiset equality on voc(P) with costs",
                  "8/C10")
 
+CHECKS["C02"] = (SEM, "every objective-bearing corpus/family program is run under trait subsets (pairwise bound / 512) resp. its "
+                 "owning trait and all traits; for every instance the sets {(answer set on IN u OUT or voc(P), cost per "
+                 "priority)} of source and result are compared (costs read from clingo under --opt-mode=enum)", "8/C02")
+CHECKS["C04"] = (
+    "bounded-exhaustive exploration of optimize over family, corpus and zoo programs; every result is loaded into clingo "
+    "twice (AST objects via ProgramBuilder, printed text via Control.add), grounded on the whole universe and solved for "
+    "all instances",
+    "for every explored execution: all returned statements load and ground without error both as AST and as text, printing "
+    "is a fixpoint of parsing for every statement, and AST-loaded and text-loaded programs have the same answer sets and "
+    "costs for every instance", "8/C04")
+CHECKS["C06"] = (SEM, "composition corpus x all 128 subsets of the seven aux-only traits and the family programs under all "
+                 "seven: multiset equality of answer sets projected on the source vocabulary (bijection) with costs, for "
+                 "every instance", "8/C06")
+
 ALL = [f"C{i:02d}" for i in range(1, 21)]
 
 
